@@ -5,14 +5,15 @@
 # scratch file, never to /verif/evidence.
 set -u
 patch=$(readlink -f "$1"); prop=$2; shift 2
-wt=/tmp/mut/try_wt
+tag=${TRY_TAG:-}
+wt=/tmp/mut/try_wt$tag
 variant=asan; [ "$prop" = C36 ] && variant=tsan
 mkdir -p /tmp/mut
 if [ ! -d $wt ]; then git -C /repo worktree add -q --detach $wt HEAD || exit 9; fi
 git -C $wt checkout -q -- . && git -C $wt checkout -q --detach $(git -C /repo rev-parse HEAD) || exit 9
 git -C $wt apply "$patch" || { echo "patch does not apply"; exit 9; }
-cd /verif && make -s -j16 REPO=$wt VARIANT=$variant B=.build/try-$variant 2>&1 | grep -E "error|Error" | head
-./.build/try-$variant/simcheck "$prop" --tier quick --evidence /tmp/mut/try_evidence.json "$@"
+cd /verif && make -s -j16 REPO=$wt VARIANT=$variant B=.build/try$tag-$variant 2>&1 | grep -E "error|Error" | head
+./.build/try$tag-$variant/simcheck "$prop" --tier quick --evidence /tmp/mut/try_evidence$tag.json "$@"
 rc=$?
 git -C $wt checkout -q -- .
 echo "try_mutation: exit $rc"
